@@ -209,13 +209,13 @@ def check_c04(tier, seed):
         bad, counters, errors = C.run_cases('C04', IMPORTS, 'fspec * list tok * cmal * jv', check_def, cases, extra, shard=12)
         lcheck = ('Definition flat_ok (c : list (string * list tok) * list tok * jv) : bool :=\n'
                   '  let \'(files, root, r) := c in\n'
-                  '  match flat_of (fun f => dget seqb files f) (parse_fuel root) 4 root with\n'
+                  '  match flat_of (fun f => dget seqb files f) (parse_fuel root) 8 root with\n'
                   '  | Some fm => str_nodupb (define_keys fm) | None => false end.\n'
                   'Definition check (c : list (string * list tok) * list tok * jv) : bool :=\n'
                   '  let \'(files, root, r) := c in\n'
-                  '  match compile (fun f => dget seqb files f) (parse_fuel root) 4 root with\n'
+                  '  match compile (fun f => dget seqb files f) (parse_fuel root) 8 root with\n'
                   '  | Some s => jv_eqb (jv_of_spec numval s) r &&\n'
-                  '      match flat_of (fun f => dget seqb files f) (parse_fuel root) 4 root with\n'
+                  '      match flat_of (fun f => dget seqb files f) (parse_fuel root) 8 root with\n'
                   '      | Some fm => if str_nodupb (define_keys fm) then jv_eqb (jv_of_spec numval (flat_spec fm)) r else true\n'
                   '      | None => false end\n'
                   '  | None => false end.')
@@ -320,6 +320,44 @@ def check_c17(tier, seed):
                         write(scratch, f'mid{i}.mal', render_junk([('kw', 'include'), ('str', f'inc{i}.mal')]))
                         root = head + [('kw', 'include'), ('str', f'mid{i}.mal'), ('kw', 'include'), ('str', f'ok{i}.mal')]
                     variants.append(('include-then-include-' + k, root, m))
+            # a history on unchanged file names: the layout compiles, then an included file (one or two levels down) is
+            # damaged while the files including it keep their text, and the same root is compiled again
+            if len(decls) >= 2:
+                cut = rng.randrange(1, len(decls))
+                leaf_ok = [t for d in decls[cut:] for t in d]
+                nested = rng.random() < 0.5
+                write(scratch, f'hleaf{i}.mal', render_junk(leaf_ok))
+                if nested:
+                    write(scratch, f'hmid{i}.mal', render_junk([('kw', 'include'), ('str', f'hleaf{i}.mal')]))
+                hroot = [t for d in decls[:cut] for t in d] + [('kw', 'include'), ('str', f'hmid{i}.mal' if nested else f'hleaf{i}.mal')]
+                hfn = write(scratch, f'hroot{i}.mal', render_junk(hroot))
+                hv = []
+                try:
+                    impl_compile(hfn)
+                    first_ok = True
+                except Exception:
+                    first_ok = False
+                for _ in range(4):
+                    k, m = mutate(rng, leaf_ok)
+                    dtext = render_junk(m)
+                    _, dle, dpe, _, _ = antlr_run(dtext)
+                    if dle + dpe == 0:
+                        continue
+                    write(scratch, f'hleaf{i}.mal', dtext)
+                    for label, f in (('MalCompiler.compile', lambda: impl_compile(hfn)),
+                                     ('LanguageGraph.from_mal_spec', lambda: with_timeout(lambda: LanguageGraph.from_mal_spec(hfn)))):
+                        try:
+                            f()
+                            hv.append(f'{label} returned a result for a source with syntax errors')
+                        except Hang:
+                            hv.append(f'{label} did not terminate within 20 s')
+                        except Exception:
+                            pass
+                    kinds['history-' + k] = kinds.get('history-' + k, 0) + 1
+                    if hv:
+                        metas.append({'kind': 'history-' + k, 'erroneous': True, 'lexer_errors': dle, 'prop_viol': hv, 'text': render_junk(hroot),
+                                      'included': dtext, 'history': 'the same root compiled before with the valid included file' + (' (two levels down)' if nested else '')})
+                        break
             for vi, (k, root, inc) in enumerate(variants):
                 text = render_junk(root)
                 T, le, pe, tree, P = antlr_run(text)
